@@ -30,7 +30,8 @@ CONSTANTS MaxN,                          \* rows 2..MaxN
           AsIs_UnconditionalUnshuffle,
           Mut_NoReshuffle,               \* fault: updated labels are not brought into the shuffled order
           Mut_FeedUnlabeled,             \* fault: rows with label 0 are handed to the estimator too
-          Mut_InverseMixup               \* fault: scores un-shuffled with shuffled_idx instead of argsort(shuffled_idx)
+          Mut_InverseMixup,              \* fault: scores un-shuffled with shuffled_idx instead of argsort(shuffled_idx)
+          GenMod                         \* behaviour generation: 1 = every run; m > 1 = the runs whose input hashes to 0 mod m
 
 ThrSmall == {<<1, 2>>, <<1, 1>>}
 ThrMid   == {<<1, 2>>, <<3701, 10000>>, <<1, 1>>}
@@ -158,5 +159,9 @@ PredInvariant  == /\ pc = "done"  => pred = DeclPred(it)
 
 (* ------------------------------- behaviour generation ------------------------------- *)
 \* one line per explored run: input, configuration, max_iter (= it), predicted outcome and predictions
+\* a fixed pseudo-random 1/GenMod sample of the inputs (dataset, thr, perm), both switches and all max_iter of a kept input
+Code(f, m) == LET S[i \in 0..m] == IF i = 0 THEN 0 ELSE S[i - 1] * 5 + f[i] IN S[m]
+GenHash == 31 * Code(a, n) + 17 * Code(perm, n) + 7 * Code([i \in 1..n |-> IF tgt[i] THEN 1 ELSE 0], n) + thr[1] + 3 * thr[2]
+GenKeep == (GenMod > 1 /\ pc = "start") => GenHash % GenMod = 0
 EmitCase == pc \in {"done", "abort"} => PrintT(<<"CASE", n, tgt, a, thr, shuffle, perm, it, pc, pred>>)
 =============================================================================
